@@ -200,7 +200,7 @@ impl H263State {
             let mut chroma_r_levels =
                 vec![DecodedDctBlock::Zero; level_dimensions.0 * level_dimensions.1 / 4 / 64];
 
-            loop {
+            while macroblock_types.len() < mb_per_line * mb_height {
                 let mb = decode_macroblock(
                     reader,
                     next_decoded_picture.as_header(),
